@@ -1204,6 +1204,23 @@ func (p *Printer) stmt(s *Stmt) {
 	p.decLevel()
 }
 
+// sameLineStmt prints a statement which continues the current line, such as
+// the right side of a pipe or the one after "time", with its comments.
+// Like in stmtList, but since the statement begins on this line,
+// all of its comments are inside or after its command.
+func (p *Printer) sameLineStmt(s *Stmt) {
+	var endComs []Comment
+	for _, c := range s.Comments {
+		if s.Cmd != nil && c.End().After(s.Cmd.End()) {
+			endComs = append(endComs, c)
+			break
+		}
+		p.comments(c)
+	}
+	p.stmt(s)
+	p.comments(endComs...)
+}
+
 func (p *Printer) printRedirsUntil(redirs []*Redirect, startRedirs int, pos Pos) int {
 	for _, r := range redirs[startRedirs:] {
 		if r.Pos().After(pos) || r.Op == Hdoc || r.Op == DashHdoc {
@@ -1307,18 +1324,7 @@ func (p *Printer) command(cmd Command, redirs []*Redirect) (startRedirs int) {
 			// leave p.nestedBinary untouched
 			p.spacedToken(cmd.Op.String(), cmd.OpPos)
 			p.advanceLine(cmd.Y.Pos().Line())
-			// Like in stmtList, but the statement begins on this line,
-			// so all of its comments are inside or after its command.
-			var endComs []Comment
-			for _, c := range cmd.Y.Comments {
-				if cmd.Y.Cmd != nil && c.End().After(cmd.Y.Cmd.End()) {
-					endComs = append(endComs, c)
-					break
-				}
-				p.comments(c)
-			}
-			p.stmt(cmd.Y)
-			p.comments(endComs...)
+			p.sameLineStmt(cmd.Y)
 			break
 		}
 		indent := !p.nestedBinary
@@ -1452,7 +1458,7 @@ func (p *Printer) command(cmd Command, redirs []*Redirect) (startRedirs int) {
 			p.spacedString("-p", cmd.Pos())
 		}
 		if cmd.Stmt != nil {
-			p.stmt(cmd.Stmt)
+			p.sameLineStmt(cmd.Stmt)
 		}
 	case *CoprocClause:
 		p.spacedString("coproc", cmd.Pos())
@@ -1461,7 +1467,7 @@ func (p *Printer) command(cmd Command, redirs []*Redirect) (startRedirs int) {
 			p.word(cmd.Name)
 		}
 		p.space()
-		p.stmt(cmd.Stmt)
+		p.sameLineStmt(cmd.Stmt)
 	case *LetClause:
 		p.spacedString("let", cmd.Pos())
 		for _, n := range cmd.Exprs {
